@@ -70,6 +70,7 @@ def observe(R, prog, text, sites):
     if not b.ok:
         return b, None, None, None, ["build failed: %s" % (b.msgs[-2:] if b.msgs else b.exc,)]
     obs, problems, built = R.observe_acts(prog, b.house)
+    b.clocks = built.pop("__clocks__", [])
     shares, nodes = R.store_names(b.house.store)
     R.fill_from_store(sites, obs, shares)
     return b, obs, shares, nodes, problems
@@ -91,6 +92,13 @@ def worker(ctx, job):
             ctx.inconclusive_case("built structure does not match the AST: %s\n%s" % (problems, text))
             continue
         ctx.event(len(shares) + len(nodes))
+        # implicit framer-relative references (timeout, repeat, elapsed, recurred): the need of every instance -- a clone too --
+        # reads the clock of that instance, framer.<its own name>.state|goal.<clock>
+        for ikey, fname, name in b.clocks:
+            ctx.hit("implicit_clock_refs" + ("_in_clones" if len(ikey) > 1 else ""))
+            ctx.check(name.split(".")[:2] == ["framer", fname] and name in shares, "implicit-clock-reference-not-of-its-own-framer",
+                      "timeout / repeat / elapsed / recurred of framer instance %s resolves to %s" % (fname, name),
+                      lambda: {"instance": fname, "resolved": name, "program": text})
         base = {}
         okbase = True
         for sk, info in sites.items():
@@ -246,7 +254,7 @@ def run_confirm(ctx, R, prog, b, sites, base, shares, text):
                 bydst.setdefault(P(ik, s["dst"]), set()).add(seedv[P(ik, s["src"])] if s["src"] else 1)
             for d, steps in sorted(bydst.items()):
                 delta = val(d) - seedv[d] if isinstance(val(d), (int, float)) and not isinstance(val(d), bool) else None
-                res.append(("inc", d, delta is not None and sums_to(delta, sorted(steps), 40), val(d) != seedv[d], sorted(steps)))
+                res.append(("inc", d, delta is not None and sums_to(delta, sorted(steps), 10 * max(4, len(g["insts"]))), val(d) != seedv[d], sorted(steps)))
         elif op == "do":
             for p in s["pers"] + [io for src, io in s["fors"]]:
                 key = p["tail"] if p.get("defaultkey") else "k%d" % p["id"]
@@ -307,3 +315,4 @@ def run(ctx):
     for name, v in MEASURED48.items():
         ctx.floor(name, max(1, int(v / (3.0 if v >= 100 else 5.0) * n / 48.0)))
     ctx.floor("oracle_evaluations", int(73000 / 3.0 * n / 48.0))
+    ctx.floor("implicit_clock_refs_in_clones", max(5, n // 2))
